@@ -42,14 +42,14 @@ pub trait SvpApplyDftToDftAssign<BE: Backend> {
     // res[res_col][j] *= a[a_col] for every active limb j
     fn svp_apply_dft_to_dft_assign<D: DataMut, DS>(&self, res: &mut VecZnxDft<D, BE>, res_col: usize, a: &SvpPPol<DS, BE>, a_col: usize)
         requires res_col < old(res).cols, a_col < a.cols, old(res).n == a.n,
-        ensures final(res).n == old(res).n, final(res).cols == old(res).cols, final(res).size == old(res).size, final(res).max_size == old(res).max_size,
+        ensures final(res).n == old(res).n, final(res).cols == old(res).cols, final(res).size == old(res).size, final(res).max_size == old(res).max_size, final(res).rad == old(res).rad,
             forall|j: int| 0 <= j < old(res).size ==> #[trigger] final(res).dep(res_col as int, j) == old(res).dep(res_col as int, j).union(a.deps@[a_col as int]),
             forall|i: int, j: int| (i != res_col || j < 0 || j >= old(res).size) ==> #[trigger] final(res).dep(i, j) == old(res).dep(i, j);
 }
 pub trait VecZnxBigAddAssign<BE: Backend> {
     fn vec_znx_big_add_assign<D: DataMut, A: VecZnxBigToRef<BE>>(&self, res: &mut VecZnxBig<D, BE>, res_col: usize, a: &A, a_col: usize)
-        requires res_col < old(res).cols, a_col < a.bigref().cols, old(res).n == a.bigref().n,
-        ensures final(res).n == old(res).n, final(res).cols == old(res).cols, final(res).size == old(res).size, final(res).max_size == old(res).max_size,
+        requires res_col < old(res).cols, a_col < a.bigref().cols, old(res).n == a.bigref().n, a.bigref().rad == old(res).rad || big_cleared(*old(res)),
+        ensures final(res).n == old(res).n, final(res).cols == old(res).cols, final(res).size == old(res).size, final(res).max_size == old(res).max_size, final(res).rad == a.bigref().rad,
             forall|j: int| 0 <= j < old(res).size ==> #[trigger] final(res).dep(res_col as int, j) == (if j < a.bigref().size { old(res).dep(res_col as int, j).union(a.bigref().dep(a_col as int, j)) } else { old(res).dep(res_col as int, j) }),
             forall|i: int, j: int| (i != res_col || j < 0 || j >= old(res).size) ==> #[trigger] final(res).dep(i, j) == old(res).dep(i, j);
 }
